@@ -320,7 +320,7 @@ func c07Order(c *Ctx, d *Dispatcher) {
 				}
 			}
 		}
-		okLoop, why := c.countingLoopOver(h, at)
+		okLoop, why := c.countingLoopOver(hit.Fn, at)
 		c.R.Check(rule, cons+":ascending", c.P.InstrPos(hit.Call), okLoop, "elements must be evaluated in source order: "+why)
 		// appended in the same iteration, in order
 		app := false
@@ -346,10 +346,14 @@ func c07Order(c *Ctx, d *Dispatcher) {
 					callee = v.Call
 				}
 			}
-			c.R.Check(rule, "callee-before-arguments", c.P.InstrPos(hit.Call), callee != nil && instrDominates(callee, hit.Call), "the callee must be evaluated before the arguments")
+			var argsAt ssa.Instruction = hit.Call
+			if hit.Via != nil {
+				argsAt = hit.Via
+			}
+			c.R.Check(rule, "callee-before-arguments", c.P.InstrPos(hit.Call), callee != nil && instrDominates(callee, argsAt), "the callee must be evaluated before the arguments")
 		}
 	}
-	c.R.Floor(rule, 25)
+	c.R.Floor(rule, 12)
 }
 
 func isResultOf(v ssa.Value, call *ssa.Call, idx int) bool {
@@ -446,7 +450,7 @@ func c07Fresh(c *Ctx) {
 		})
 	}
 	c.R.Analysed["mutator_calls_checked"] = n
-	c.R.Floor(rule, 30)
+	c.R.Floor(rule, 12)
 }
 
 // isOwnStateParam: parameter types that are the module's own state, not caller data.
@@ -514,5 +518,5 @@ func c07NoDataWrites(c *Ctx) {
 	for _, f := range rr.Order {
 		c.R.Add(rule, "scanned:"+c.P.FuncKey(f), c.P.Pos(f.Pos()), OK, "")
 	}
-	c.R.Floor(rule, 60)
+	c.R.Floor(rule, 25)
 }
